@@ -148,8 +148,86 @@ def _ret_is_envelope(f):
     return any(e in str(name) for e in ENVELOPES)
 
 
+def _qualname(node, parents):
+    p, qual = node, []
+    while p in parents:
+        p = parents[p]
+        if isinstance(p, (ast.FunctionDef, ast.AsyncFunctionDef, ast.ClassDef)):
+            qual.append(p.name)
+    return ".".join(reversed(qual))
+
+
+def _enclosing_function(node, parents):
+    p = node
+    while p in parents:
+        p = parents[p]
+        if isinstance(p, (ast.FunctionDef, ast.AsyncFunctionDef)):
+            return p
+    return None
+
+
+class _Subst(ast.NodeTransformer):
+    def __init__(self, binding):
+        self.binding = binding
+
+    def visit_Name(self, node):
+        if isinstance(node.ctx, ast.Load) and node.id in self.binding:
+            return copy.deepcopy(self.binding[node.id])
+        return node
+
+
+def _inline_at_call_sites(lit, fn, tree, parents):
+    """A dict literal inside a PRIVATE builder function (`_error_message(id, code, text)`) whose free names
+    are that function's parameters: for every call of the builder in the same file, the literal with the
+    parameters replaced by the call's argument expressions -> [(caller qualname, substituted literal)].
+    Empty when the literal does not depend on parameters, the function is public, or a call cannot be
+    bound (star-args etc.)."""
+    if fn is None or not fn.name.startswith("_"):
+        return []
+    a = fn.args
+    if a.vararg or a.kwarg:
+        return []
+    params = [x.arg for x in a.posonlyargs + a.args]
+    kwonly = [x.arg for x in a.kwonlyargs]
+    used = {n.id for n in ast.walk(lit) if isinstance(n, ast.Name)}
+    if not used & set(params + kwonly):
+        return []
+    is_static = any(isinstance(d, ast.Name) and d.id == "staticmethod" for d in fn.decorator_list)
+    in_class = isinstance(parents.get(fn), ast.ClassDef)
+    defaults = dict(zip(params[len(params) - len(a.defaults):], a.defaults))
+    defaults.update({k: d for k, d in zip(kwonly, a.kw_defaults) if d is not None})
+    out = []
+    for call in ast.walk(tree):
+        if not isinstance(call, ast.Call):
+            continue
+        f = call.func
+        via_attr = isinstance(f, ast.Attribute) and f.attr == fn.name
+        if not (via_attr or (isinstance(f, ast.Name) and f.id == fn.name)):
+            continue
+        if any(isinstance(x, ast.Starred) for x in call.args) or any(k.arg is None for k in call.keywords):
+            return []
+        formal = list(params)
+        if in_class and not is_static and via_attr and formal:
+            formal = formal[1:]  # bound method: self / cls is supplied by the receiver
+        if len(call.args) > len(formal):
+            return []
+        binding = dict(zip(formal, call.args))
+        for k in call.keywords:
+            binding[k.arg] = k.value
+        for name in formal + kwonly:
+            if name not in binding:
+                if name in defaults:
+                    binding[name] = defaults[name]
+                else:
+                    return []
+        node = ast.fix_missing_locations(_Subst(binding).visit(copy.deepcopy(lit)))
+        out.append((_qualname(call, parents), node))
+    return out
+
+
 def literal_sites():
-    """every dict literal with a "jsonrpc" key in the package: (name, node, source path)"""
+    """every dict literal with a "jsonrpc" key in the package: (name, node, source path).  A literal in a
+    private builder function is taken once per call of the builder, with the call's arguments inlined."""
     root = core.REPO / "src" / "chuk_mcp"
     out = []
     for f in sorted(root.rglob("*.py")):
@@ -164,14 +242,13 @@ def literal_sites():
         found = []
         for n in ast.walk(tree):
             if isinstance(n, ast.Dict) and any(isinstance(k, ast.Constant) and k.value == "jsonrpc" for k in n.keys):
-                p, qual = n, []
-                while p in parents:
-                    p = parents[p]
-                    if isinstance(p, (ast.FunctionDef, ast.AsyncFunctionDef, ast.ClassDef)):
-                        qual.append(p.name)
-                keys = "+".join(sorted(k.value for k in n.keys if isinstance(k, ast.Constant) and k.value != "jsonrpc"))
-                found.append((n.lineno, ".".join(reversed(qual)), keys, n))
-        found.sort(key=lambda t: t[0])
+                qual = _qualname(n, parents)
+                inlined = _inline_at_call_sites(n, _enclosing_function(n, parents), tree, parents)
+                variants = [(f"{qual}<-{caller}", node) for caller, node in inlined] or [(qual, n)]
+                for q, node in variants:
+                    keys = "+".join(sorted(str(k.value) for k in node.keys if isinstance(k, ast.Constant) and k.value != "jsonrpc"))
+                    found.append((getattr(node, "lineno", n.lineno), q, keys, node))
+        found.sort(key=lambda t: (t[1], t[0]))
         counts = {}
         for _, qual, keys, node in found:
             k = counts[(qual, keys)] = counts.get((qual, keys), 0) + 1
@@ -195,6 +272,8 @@ def discover():
         for n, f in sorted(vars(mod).items()):
             if inspect.isfunction(f) and f.__module__ == mod.__name__:
                 params = inspect.signature(f).parameters
+                if n.startswith("_"):
+                    continue  # private helper: reached through the public emitters that call it
                 if inspect.iscoroutinefunction(f) and "write_stream" in params:
                     names.append(f"{rel}.{n}")
                 elif n.startswith("create_") and _ret_is_envelope(f):
@@ -209,14 +288,36 @@ def discover():
 
     for cls in (ProtocolHandler, MCPServer):
         for mn, mf in sorted(vars(cls).items()):
-            if inspect.isfunction(mf) and (mn.startswith("create_") or mn.startswith("_handle_") or mn == "handle_message"):
+            if inspect.isfunction(mf) and not mn.startswith("_") and (mn.startswith("create_") or mn == "handle_message"):
                 names.append(f"server.{cls.__name__}.{mn}")
+    # the methods a server answers: read from the registries of fresh instances (the public surface of
+    # the handlers; private `_handle_*` helpers are reached through them)
+    names += [f"server.{cls}.method:{m}" for cls, m in registered_methods()]
     for mn, mf in sorted(vars(BatchProcessor).items()):
         if inspect.isfunction(mf) and mn.startswith("create_"):
             names.append(f"batching.BatchProcessor.{mn}")
     names += [n for n, _, _ in literal_sites()]
     names += ["transport:stdio-writer", "transport:http-post", "transport:sse-post"]
     return names
+
+
+def registered_methods():
+    """(class name, method) for every method registered on a fresh ProtocolHandler / MCPServer"""
+    from chuk_mcp.server.server import MCPServer
+
+    out = []
+    try:
+        core_methods = sorted(getattr(_handler(), "_handlers", {}) or {})
+    except Exception:  # noqa: BLE001
+        core_methods = []
+    out += [("ProtocolHandler", m) for m in core_methods]
+    try:
+        srv = MCPServer("verif")
+        reg = getattr(getattr(srv, "protocol_handler", None), "_handlers", {}) or {}
+        out += [("MCPServer", m) for m in sorted(reg) if m not in core_methods]
+    except Exception:  # noqa: BLE001
+        pass
+    return out
 
 
 # ---------------------------------------------------------------------------------------------
@@ -552,19 +653,171 @@ def literal_env(a):
     }
 
 
+class _Any:
+    """stand-in for a free name whose shape is unknown but which is only formatted / inspected:
+    every attribute and call gives another stand-in, `str()` / f-strings give the case's text"""
+
+    def __init__(self, text):
+        self._t = text
+
+    def __getattr__(self, name):
+        if name.startswith("__"):
+            raise AttributeError(name)
+        return _Any(self._t)
+
+    def __call__(self, *a, **k):
+        return _Any(self._t)
+
+    def __getitem__(self, k):
+        return _Any(self._t)
+
+    def __str__(self):
+        return self._t
+
+    __repr__ = __str__
+
+    def __format__(self, spec):
+        return self._t
+
+
+SAFE_BUILTINS = {"str": str, "int": int, "float": float, "bool": bool, "len": len, "repr": repr, "isinstance": isinstance,
+                 "dict": dict, "list": list, "tuple": tuple, "type": type, "getattr": getattr, "hasattr": hasattr,
+                 "min": min, "max": max, "None": None, "True": True, "False": False}
+STR_HINTS = ("text", "message", "msg", "reason", "detail", "description", "what", "why", "name", "method", "version")
+INT_HINTS = ("code", "status", "errno", "count")
+ID_HINTS = ("id",)
+PAYLOAD_HINTS = ("data", "params", "result", "payload", "arguments", "content", "value")
+
+
+def _positions(node):
+    """free name -> role, from where the name stands in the literal: directly as the value of `id`,
+    `error.code`, `error.message`, `error.data`, `params`, `result`, `method`"""
+    roles = {}
+
+    def direct(v, role):
+        if isinstance(v, ast.Name):
+            roles.setdefault(v.id, role)
+
+    for k, v in zip(node.keys, node.values):
+        if not isinstance(k, ast.Constant):
+            continue
+        if k.value == "id":
+            direct(v, "id")
+        elif k.value == "method":
+            direct(v, "str")
+        elif k.value in ("params", "result"):
+            direct(v, "payload")
+        elif k.value == "error" and isinstance(v, ast.Dict):
+            for k2, v2 in zip(v.keys, v.values):
+                if isinstance(k2, ast.Constant):
+                    direct(v2, {"code": "int", "message": "str", "data": "payload"}.get(k2.value, "payload"))
+        elif k.value == "error":
+            direct(v, "error")
+    return roles
+
+
+def _used_as_object(node, name):
+    """is the name the base of an attribute access, a call or a subscript?"""
+    for n in ast.walk(node):
+        if isinstance(n, (ast.Attribute, ast.Subscript)) and isinstance(n.value, ast.Name) and n.value.id == name:
+            return True
+        if isinstance(n, ast.Call) and isinstance(n.func, ast.Name) and n.func.id == name:
+            return True
+    return False
+
+
+def _role_by_name(name):
+    low = name.lower()
+    parts = low.replace("-", "_").split("_")
+    if any(p in ID_HINTS for p in parts):
+        return "id"
+    if any(p in INT_HINTS for p in parts):
+        return "int"
+    if any(p in STR_HINTS for p in parts) or low.endswith("text"):
+        return "str"
+    if any(p in PAYLOAD_HINTS for p in parts):
+        return "payload"
+    return None
+
+
 def literal_driver(node, path):
+    """evaluate the dict literal of the real source.  Names the harness knows get their usual
+    stand-ins; any other free name is bound by the position it occupies in the literal (id / error.code /
+    error.message / error.data / params / result), else by its spelling, else payload, string and integer are
+    tried in turn.  A literal that still cannot be evaluated is reported as skipped (a note), not as a
+    broken correspondence."""
     code = compile(ast.Expression(body=node), str(path), "eval")
     free = sorted({n.id for n in ast.walk(node) if isinstance(n, ast.Name)})
+    roles = _positions(node)
+
+    def value_for(role, a, text, payload):
+        if role == "id":
+            return idval(a.get("id"))
+        if role == "int":
+            return a.get("code", -32603)
+        if role == "str":
+            return text
+        if role == "payload":
+            return payload
+        if role == "error":
+            return {"code": a.get("code", -32603), "message": text}
+        if role == "object":
+            return _Any(text)
+        raise ValueError(role)
+
+    dynamic_keys = [k for k in node.keys if not isinstance(k, ast.Constant)]
 
     def drive(a):
-        env = literal_env(a)
-        unknown = [n for n in free if n not in env]
-        if unknown:
-            raise UnknownEmitter(f"free names {unknown} in the literal at {path}:{node.lineno}")
-        return [eval(code, {"__builtins__": {}}, env)]  # noqa: S307 - the library's own literal
+        if dynamic_keys:
+            raise SkippedLiteral(f"the literal at {path.name}:{node.lineno} has a member whose name is computed "
+                                 f"({ast.unparse(dynamic_keys[0])}); its shape is decided by its callers")
+        known = literal_env(a)
+        text = s_(a.get("text") or [120])
+        payload = _obj(a.get("payload")) if a.get("payload") is not None else {}
+        env, guess = dict(SAFE_BUILTINS), []
+        for n in free:
+            if n in known:
+                env[n] = known[n]
+            elif n in SAFE_BUILTINS:
+                continue
+            else:
+                role = roles.get(n) or ("object" if _used_as_object(node, n) else None) or _role_by_name(n)
+                if role is None:
+                    guess.append(n)
+                else:
+                    env[n] = value_for(role, a, text, payload)
+        trials = [()]
+        for n in guess:
+            trials = [t + ((n, r),) for t in trials for r in ("payload", "str", "int")]
+        last = None
+        for t in trials[:27]:
+            e2 = dict(env)
+            for n, r in t:
+                e2[n] = value_for(r, a, text, payload)
+            try:
+                v = eval(code, {"__builtins__": {}}, e2)  # noqa: S307 - the library's own literal
+                J.of_py(v)  # a wrong guess may put a stand-in where a JSON value belongs
+                return [v]
+            except Exception as ex:  # noqa: BLE001
+                last = ex
+                if not guess:
+                    break
+        if not guess and not any(n not in known and n not in SAFE_BUILTINS for n in free):
+            # only names the harness knows: the literal itself misbehaves -> let the oracle see it
+            return [eval(code, {"__builtins__": {}}, env)]  # noqa: S307
+        raise SkippedLiteral(f"the literal at {path.name}:{node.lineno} could not be evaluated with heuristic bindings "
+                             f"for {[n for n in free if n not in known and n not in SAFE_BUILTINS]}: {type(last).__name__}")
 
     drive.keys = sorted(k.value for k in node.keys if isinstance(k, ast.Constant))
     return drive
+
+
+class SkippedLiteral(Exception):
+    pass
+
+
+class InnerRaised(Exception):
+    pass
 
 
 # -- the transports' serialisers -----------------------------------------------------------------
@@ -586,7 +839,10 @@ def _inner(a):
         if ent is None:
             raise UnknownEmitter("inner emitter without a driver")
         r = ent[1](kind.get("args") or {})
-        return list(r[0] if isinstance(r, tuple) else r)
+        msgs = list(r[0] if isinstance(r, tuple) else r)
+        if not msgs and isinstance(r, tuple) and r[1]:
+            raise InnerRaised(r[1])  # the inner emitter raised before writing anything
+        return msgs
     idv = idval(a.get("id"))
     params = copy.deepcopy(_obj(a.get("params")))
     result = _obj(a.get("result"))
@@ -797,13 +1053,13 @@ def drivers():
         "server.ProtocolHandler.handle_message": ("server", d_handle_message),
         "server.ProtocolHandler.create_response": ("ctor", d_handler_create_response),
         "server.ProtocolHandler.create_error_response": ("ctor", d_handler_create_error_response),
-        "server.ProtocolHandler._handle_initialize": ("server", d_handle_message),
-        "server.ProtocolHandler._handle_initialized": ("server", d_handle_message),
-        "server.ProtocolHandler._handle_ping": ("server", d_handle_message),
-        "server.MCPServer._handle_tools_list": ("server", d_mcpserver),
-        "server.MCPServer._handle_tools_call": ("server", d_mcpserver),
-        "server.MCPServer._handle_resources_list": ("server", d_mcpserver),
-        "server.MCPServer._handle_resources_read": ("server", d_mcpserver),
+        "server.ProtocolHandler.method:initialize": ("server", d_handle_message),
+        "server.ProtocolHandler.method:notifications/initialized": ("server", d_handle_message),
+        "server.ProtocolHandler.method:ping": ("server", d_handle_message),
+        "server.MCPServer.method:tools/list": ("server", d_mcpserver),
+        "server.MCPServer.method:tools/call": ("server", d_mcpserver),
+        "server.MCPServer.method:resources/list": ("server", d_mcpserver),
+        "server.MCPServer.method:resources/read": ("server", d_mcpserver),
         "batching.BatchProcessor.create_batch_rejection_error": ("dict", d_batch_rejection),
         "transport:stdio-writer": ("transport", d_stdio_writer),
         "transport:http-post": ("transport", d_http_post),
@@ -820,7 +1076,7 @@ def drivers():
         rel = mod.__name__[len(M.__name__) + 1:]
         for n, f in vars(mod).items():
             if inspect.isfunction(f) and f.__module__ == mod.__name__ and inspect.iscoroutinefunction(f) \
-                    and "write_stream" in inspect.signature(f).parameters:
+                    and not n.startswith("_") and "write_stream" in inspect.signature(f).parameters:
                 name = f"{rel}.{n}"
                 if name not in D:
                     D[name] = ("helper", helper_driver(f))
@@ -841,6 +1097,8 @@ def run_case(case):
         r = fn(case.get("args") or {})
     except UnknownEmitter as ex:
         return {"unknown": True, "why": str(ex), "raised": None, "emitted": []}
+    except SkippedLiteral as ex:
+        return {"skipped": str(ex), "raised": None, "emitted": []}
     except Exception as ex:  # noqa: BLE001 - the constructor raised: nothing is emitted
         return observe([], type(ex).__name__)
     extra = None
